@@ -34,7 +34,8 @@ ToObs(L) ==
    pre |-> StOf(L.pre), post |-> StOf(L.post),
    some |-> L.some, rtime |-> L.rtime, steps |-> L.steps,
    exc |-> L.exc, eobj |-> L.eobj, eidx |-> L.eidx, log |-> L.log,
-   ign |-> L.ign, stale |-> L.stale, opq |-> L.opq, hasl2 |-> L.hasl2, l2 |-> L.l2, mt |-> L.mt,
+   ign |-> L.ign, stale |-> L.stale, opq |-> L.opq,
+   tp |-> [ent |-> Range(L.tp.ent), exi |-> Range(L.tp.exi), fir |-> Range(L.tp.fir), con |-> Range(L.tp.con), trs |-> Range(L.tp.trs)], hasl2 |-> L.hasl2, l2 |-> L.l2, mt |-> L.mt,
    ref |-> [rel |-> L.ref.rel, exc |-> L.ref.exc, some |-> L.ref.some, steps |-> L.ref.steps,
             log |-> L.ref.log, conf |-> Range(L.ref.conf), final |-> L.ref.final, x |-> L.ref.x]]
 
